@@ -1,1 +1,70 @@
-fn main(){}
+#![allow(dead_code)]
+//! vcheck — property checks for icerpc/slicec (see /verif/DESIGN.md).
+//!
+//!   vcheck run <ID> quick|thorough         supervisor (what ./check calls)
+//!   vcheck replay <ID> <file>              strict re-run of a saved case
+//!   vcheck worker ... / vcheck one ...     internal
+
+mod c19;
+mod engine;
+mod proc;
+mod wire;
+
+use engine::{Check, Tier};
+
+fn registry() -> Vec<&'static dyn Check> {
+    vec![&c19::C19]
+}
+
+fn find(id: &str) -> &'static dyn Check {
+    registry().into_iter().find(|c| c.id() == id).unwrap_or_else(|| {
+        eprintln!("vcheck: unknown property {id}");
+        std::process::exit(2)
+    })
+}
+
+fn main() {
+    let args: Vec<String> = std::env::args().collect();
+    let code = match args.get(1).map(|s| s.as_str()) {
+        Some("run") if args.len() >= 4 => {
+            let check = find(&args[2]);
+            let tier = Tier::parse(&args[3]).unwrap_or_else(|| {
+                eprintln!("vcheck: tier must be quick or thorough");
+                std::process::exit(2)
+            });
+            engine::supervise(check, tier)
+        }
+        Some("worker") if args.len() >= 8 => {
+            let check = find(&args[2]);
+            let tier = Tier::parse(&args[3]).expect("tier");
+            let shard: usize = args[4].parse().expect("shard");
+            let nshards: usize = args[5].parse().expect("nshards");
+            let seed: u64 = args[6].parse().expect("seed");
+            engine::worker_main(check, tier, shard, nshards, seed, args[7].clone().into())
+        }
+        Some("one") if args.len() >= 6 => {
+            let check = find(&args[2]);
+            let strict = args.get(6).map(|s| s == "strict").unwrap_or(true);
+            engine::one_main(check, args[3].clone(), args[4].clone(), args[5].clone(), strict)
+        }
+        Some("replay") if args.len() >= 4 => engine::replay_main(find(&args[2]), &args[3]),
+        Some("needs-binary") if args.len() >= 3 => {
+            if find(&args[2]).needs_binary() {
+                0
+            } else {
+                1
+            }
+        }
+        Some("list") => {
+            for c in registry() {
+                println!("{}", c.id());
+            }
+            0
+        }
+        _ => {
+            eprintln!("usage: vcheck run <ID> quick|thorough | replay <ID> <file> | list");
+            2
+        }
+    };
+    std::process::exit(code);
+}
